@@ -46,7 +46,7 @@ Qed.
 Lemma okw_unaligned off w : off + w <= len -> okw (Load RHay off w false).
 Proof. intros H. cbn. split; [exact H|discriminate]. Qed.
 Lemma okw_aligned off : off + W <= len -> (a + off) mod W = 0 -> okw (Load RHay off W true).
-Proof. intros H1 H2. cbn. split; [exact H1|]. intros _. exact H2. Qed.
+Proof. intros H1 H2. cbn. split; [exact H1|]. intros _ _. exact H2. Qed.
 
 Lemma mod_add_mulW x j : (a + x) mod W = 0 -> (a + (x + j * W)) mod W = 0.
 Proof.
